@@ -589,6 +589,10 @@ def run(tier, procs=None, only=None):
     )
 
 
+# every real-library oracle of this property (each returns (reproduced, detail)); used to confirm structural facts that carry no replay of their own
+ALL_REPLAYS = [lambda c: replay_place()(c), lambda c: replay_2d()(c), lambda c: replay_clip()(c), replay_history]
+
+
 def replay(data):
     key = data.get("key", "")
     ok, detail = (replay_2d() if "2d" in key else replay_clip() if "slices" in key else replay_place())(data.get("cex") or {})
